@@ -50,3 +50,37 @@ func LockEvent(kind int, addr uint64) {
 		LockHook(S.cur, kind, addr)
 	}
 }
+
+// ---- reach probes: "this rare condition was hit" ----
+
+var probeNames []string
+var probeCounts []int64
+
+// Probe counts one hit of a named rare condition (injected by the rewriter
+// at the entry of chosen functions).
+//
+//go:norace
+func Probe(name string) {
+	for i := range probeNames {
+		if probeNames[i] == name {
+			probeCounts[i]++
+			return
+		}
+	}
+	probeNames = append(probeNames, name)
+	probeCounts = append(probeCounts, 1)
+}
+
+// TakeProbes returns and resets the probe counters.
+//
+//go:norace
+func TakeProbes() map[string]int64 {
+	m := map[string]int64{}
+	for i := range probeNames {
+		if probeCounts[i] != 0 {
+			m[probeNames[i]] = probeCounts[i]
+			probeCounts[i] = 0
+		}
+	}
+	return m
+}
